@@ -14,12 +14,19 @@ def build_nightly_rlib(repo=None):
     d = os.path.join(extract.CACHE, 'rlibn-' + key)
     marker = os.path.join(d, 'ok')
     if os.path.exists(marker):
+        try:
+            os.utime(d, None)       # touched on use: concurrent checks prune only what nobody has used for hours
+        except OSError:
+            pass
         return d
     os.makedirs(extract.CACHE, exist_ok=True)
     for f in os.listdir(extract.CACHE):
         fp = os.path.join(extract.CACHE, f)
-        if f.startswith('rlibn-') and time.time() - os.path.getmtime(fp) > 1800:
-            shutil.rmtree(fp, ignore_errors=True)
+        try:
+            if f.startswith('rlibn-') and time.time() - os.path.getmtime(fp) > 4 * 3600:
+                shutil.rmtree(fp, ignore_errors=True)
+        except OSError:
+            pass                    # another check removed it in the meantime
     tmp = tempfile.mkdtemp(prefix='mprobe.')
     try:
         env = dict(os.environ)
